@@ -289,6 +289,16 @@ def produce(case, ctx):
             p.add(f"zz_hole{j}", "buf", output=True)
             conns[o] = f"zz_hole{j}"
         p.add_blackbox(bb, "I", conns)
+        if rng.random() < 0.5:
+            # another instance of the same cell whose name begins with "I" stays unfilled
+            conns2 = {}
+            for i in sorted(kid.inputs()):
+                conns2[i] = rng.choice(srcs)
+            for j, o in enumerate(sorted(kid.outputs())):
+                p.add(f"zz_hole2_{j}", "buf", output=True)
+                conns2[o] = f"zz_hole2_{j}"
+            p.add_blackbox(bb, rng.choice(["I1", "I_1", "I10"]), conns2)
+            ctx.count("fill_next_to_instance_with_prefix_name")
         mid = p.copy()
         p.fill_blackbox("I", kid)
         return [mid, p]
